@@ -1,5 +1,6 @@
 use std::convert::TryFrom;
 
+use rusty_bit_vec::{MAX_INTEGER, MIN_INTEGER};
 use rusty_linter::core::qualifier_of_variant;
 use rusty_parser::{FileHandle, TypeQualifier};
 use rusty_variant::Variant;
@@ -80,8 +81,14 @@ fn parse_single_input(s: String) -> Result<f32, RuntimeError> {
     if s.is_empty() {
         Ok(0.0)
     } else {
-        s.parse::<f32>()
-            .map_err(|e| RuntimeError::Other(format!("Could not parse {} as float: {}", s, e)))
+        let f = s
+            .parse::<f32>()
+            .map_err(|e| RuntimeError::Other(format!("Could not parse {} as float: {}", s, e)))?;
+        if f.is_finite() {
+            Ok(f)
+        } else {
+            Err(RuntimeError::Overflow)
+        }
     }
 }
 
@@ -89,8 +96,14 @@ fn parse_int_input(s: String) -> Result<i32, RuntimeError> {
     if s.is_empty() {
         Ok(0)
     } else {
-        s.parse::<i32>()
-            .map_err(|e| RuntimeError::Other(format!("Could not parse {} as int: {}", s, e)))
+        let i = s
+            .parse::<i32>()
+            .map_err(|e| RuntimeError::Other(format!("Could not parse {} as int: {}", s, e)))?;
+        if (MIN_INTEGER..=MAX_INTEGER).contains(&i) {
+            Ok(i)
+        } else {
+            Err(RuntimeError::Overflow)
+        }
     }
 }
 
